@@ -847,6 +847,19 @@ func runRTPackage(P *Program, L *Library, sp string, keys []string, iters, seed,
 			res.Error = err.Error()
 			continue
 		}
+		// a precondition that cannot be evaluated at run time cannot be respected by the input generator: running
+		// the function then proves nothing (a panic or a failed clause may just be a violated precondition)
+		reqBlind := ""
+		for _, r := range plan.Requires {
+			if r.Err != "" {
+				reqBlind = r.Label
+			}
+		}
+		if reqBlind != "" {
+			res.Error = "run-time evaluation not applicable: precondition " + reqBlind + " is not evaluable at run time (" + strings.Join(plan.Unsupported, "; ") + ")"
+			res.Unsupported = plan.Unsupported
+			continue
+		}
 		plans = append(plans, plan)
 		res.Unsupported = plan.Unsupported
 		for _, e := range plan.Ensures {
